@@ -13,9 +13,14 @@ Driver for correspondence stream `mp` (property C14).  Requests (one line each):
       A_p : list of N_p rows (each a list of N_p ints), b_p : list of N_p ints
       answer : `A=<rows> b=<list>`   (the accumulated system of `assemble_system`)
   slice <ax> <idx> <shape> <hasflip> <flip>     -> list | err-<kind>   (slice_indices, ravel=True)
+  phases <merge> <unshared> <shapes> <Q> <phases>
+      one Multipatch object through several phases: phase = list of calls followed by `finalize()` and the queries;
+      Q : list of `p ax side val` = `compute_dirichlet_bcs([(p, (ax, side), val), …])` with constant data
+      answer : per phase `fin <state> nd=<numdofs> <p2g_0> ; … bc=<i:v …>|err-<kind>`, joined by ` || `
 -/
 import Pyiga.Proto
 import Pyiga.Model.Multipatch
+import Pyiga.Model.Restrict
 
 open Pyiga Pyiga.Proto Pyiga.MP
 
@@ -96,6 +101,37 @@ def request : P String := do
       let A := G.assembleA Ap
       let b := G.assembleB bp
       pure (s!"A={showList showInts A.toLists} b={showInts ((List.range G.numdofs).map b)}")
+  | "phases" => do
+      let m ← bool; let u ← bool
+      let cfg : Cfg := ⟨m, u⟩
+      let shapes ← list (list nat)
+      let Q ← list (do let p ← nat; let ax ← nat; let sd ← nat; let v ← int; pure (p, ax, sd, v))
+      let phases ← list (list pCall)
+      let step := fun (acc : State × List String) (calls : List Call) =>
+        -- `finalize()` mutates the object (drops emptied shared dofs): the next phase continues from there
+        let st := finalize cfg (runCalls cfg shapes acc.1 calls)
+        let G : Glob := { P := shapes.length, N := fun p => Index.prod (shapes.getD p []), st := st }
+        let p2g := (List.range G.P).map (fun p =>
+          match G.p2gIdx cfg p with
+          | .ok l => showNats l
+          | .error e => showErr e)
+        -- Multipatch.compute_dirichlet_bcs: idx = patch_to_global_idx(p); (idx[bc[0]], bc[1]) per condition; combine_bcs
+        let bcs : Except Err (List (List Nat × List Int)) := Q.mapM (fun (q : Nat × Nat × Nat × Int) =>
+          match shapes[q.1]? with
+          | none => .error .index
+          | some sh =>
+            match liftSlice (Slice.boundaryDofs sh q.2.1 q.2.2.1 none), G.p2gIdx cfg q.1 with
+            | .ok face, .ok idx => .ok (face.map (fun i => idx.getD i 0), face.map (fun _ => q.2.2.2))
+            | .error e, _ => .error e
+            | _, .error e => .error e)
+        let bc := match bcs with
+          | .error e => showErr e
+          | .ok l => match Restrict.combineBcs l with
+            | .ok (is, vs) => showList (fun (iv : Nat × Int) => s!"{iv.1}:{iv.2}") (is.zip vs)
+            | .error _ => "err-assertion"
+        (st, acc.2 ++ [s!"fin {showState shapes st} nd={G.numdofs} " ++ " ; ".intercalate p2g ++ " bc=" ++ bc])
+      let (_, outs) := phases.foldl step (State.init, [])
+      pure (" || ".intercalate outs)
   | "slice" => do
       let ax ← nat; let idx ← int; let shape ← list nat; let fl ← pFlip
       match Slice.sliceIndices ax idx shape fl with
